@@ -88,7 +88,19 @@ def cases(tier):
                 out.append(dict(spec=build(names, couplings(names)[1 if n >= 2 else 0], ["clone"] * n), dev=list(names) + ["clone"]))
                 out.append(dict(spec=build(names, [], ["clone"] + ["direct"] * (n - 1)), dev=list(names) + ["clone0"]))
                 out.append(dict(spec=build(names, [], ["clone_edit"] + ["clone"] * (n - 1)), dev=list(names) + ["clone_edit"]))
+    # one method INSTANCE handed to every stage (documented as "will not be modified"): same NLP as with fresh instances
+    for nm in ("A", "B", "C", "D", "E"):
+        for n in (2, 3):
+            for cp in ([], [["continuity", 0]], [["master_var"]]):
+                sp = build((nm,) * n, cp, ["direct"] * n)
+                sp["share_method"] = True
+                out.append(dict(spec=sp, dev=[nm] * n + ["share_method"]))
     # histories across stages
+    for names in itertools.product(["A", "B", "G", "D"], repeat=2):
+        for via in (["direct", "direct"], ["clone", "clone"]):
+            for which in (0, 1):
+                for edit in ("subject_to", "set_T", "add_objective", "clear_constraints", "method"):
+                    out.append(dict(kind="hist", pattern="substage_edit_after_solve", which=which, edit=edit, spec=build(names, [["continuity", 0]], via), dev=list(names) + via + [edit]))
     for names in itertools.product(["A", "B", "G", "D"], repeat=2):
         for via in (["direct", "direct"], ["clone", "clone"], ["direct", "clone"]):
             out.append(dict(kind="hist", pattern="add_stage_after_transcription", spec=build(names, [], via), dev=list(names) + via))
@@ -198,6 +210,43 @@ def run_hist(case):
                     rr.st.set_value(rr.sym["pg"], 1.7)
                     sd["d"].setdefault("pvals", {})["pg"] = 1.7
             multi.add_coupling(m, spec["coupling"])    # a parent-level edit forces a new transcription
+        elif pat == "substage_edit_after_solve":
+            # an edit made on a SUB-stage of a solved multi-stage OCP (no parent-level call in between)
+            m = multi.declare_multi(spec)
+            m.ocp.solver("ipopt", opts)
+            m.ocp.solve_limited()
+            rr = m.reals[case["which"]]; sd = final["stages"][case["which"]]
+            ed = case["edit"]
+            tags = tags + ["edit=%s" % ed]
+            if ed == "subject_to":
+                c = P.con("xu_between")
+                rr.st.subject_to(P.apply_rel(P.CONS[c["c"]](P.CA, rr.pt, rr.d)))
+                if sd.get("via", "direct") == "direct":
+                    sd["d"]["cons"] = sd["d"]["cons"] + [c]
+                else:
+                    sd["extra_cons"] = sd.get("extra_cons", []) + [c]
+            elif ed == "set_T":
+                if rr.d["horizon"] != "fixed":
+                    return dict(violations=[], evaluations=1, traces=1, transitions=1, outcome="n/a", nontrivial=False, sample=dict(pattern=pat))
+                rr.st.set_T(rr.d["TT"] + 0.4)
+                sd["d"]["TT"] = rr.d["TT"] + 0.4
+            elif ed == "add_objective":
+                rr.st.add_objective(P.OBJS["sum"](P.CA, rr.pt, rr.d))
+                if sd.get("via", "direct") == "direct":
+                    sd["d"]["obj"] = sd["d"]["obj"] + ["sum"]
+                else:
+                    sd["extra_obj"] = ["sum"]
+            elif ed == "clear_constraints":
+                rr.st.clear_constraints()
+                if sd.get("via", "direct") == "direct":
+                    sd["d"]["cons"] = []
+                else:
+                    sd["clear_cons"] = True
+            elif ed == "method":
+                dd = dict(rr.d); dd.update(N=3, M=2)
+                rr.st.method(P.make_method(dd))
+                sd["d"].update(N=3, M=2)
+                sd["own_method"] = True
         r = P.Real(); r.ocp = m.ocp
         obs = hist.observe(r)
         mf = multi.declare_multi(final)
@@ -254,6 +303,6 @@ def run_case(case):
 
 def describe(tier):
     return dict(
-        rule="(histories: a stage added directly / from a template after a first solve; a sub-stage parameter updated after a solve followed by a parent-level edit; next solve = fresh multi-stage OCP) (mixed methods incl. SplineMethod: every list of length <=3 over {Spline, MS, DC} containing Spline, on integrator-chain stages: multi-stage NLP = concatenation of the stages' own real NLPs + coupling rows) and every stage list of length 1..3 over a 7-stage alphabet (incl. a global parameter whose value each clone receives after cloning) (MS / DC / SS, uniform and geometric grids, N, M, free end time, both times free with a per-interval parameter, explicit time in rhs / integrand / constraints) x coupling pattern (none, state continuity, time+state continuity, shared master variable with master objective, master variable together with a master parameter, master objective on a stage, combination) x declaration pattern (direct; all cloned from templates declared with another horizon; first cloned; clone then edit one clone with siblings from the same template): real multi-stage NLP rows = disjoint union of the stages' reference rows (each read back through stage.sample) + coupling rows, objective = sum of stage objectives + master terms; template's declared state unchanged",
+        rule="(one method instance handed to 2-3 stages) (histories: a stage added directly / from a template after a first solve; an edit {subject_to, set_T, add_objective, clear_constraints, method} on a sub-stage of a solved multi-stage OCP with no parent-level call in between; a sub-stage parameter updated after a solve followed by a parent-level edit; next solve = fresh multi-stage OCP) (mixed methods incl. SplineMethod: every list of length <=3 over {Spline, MS, DC} containing Spline, on integrator-chain stages: multi-stage NLP = concatenation of the stages' own real NLPs + coupling rows) and every stage list of length 1..3 over a 7-stage alphabet (incl. a global parameter whose value each clone receives after cloning) (MS / DC / SS, uniform and geometric grids, N, M, free end time, both times free with a per-interval parameter, explicit time in rhs / integrand / constraints) x coupling pattern (none, state continuity, time+state continuity, shared master variable with master objective, master variable together with a master parameter, master objective on a stage, combination) x declaration pattern (direct; all cloned from templates declared with another horizon; first cloned; clone then edit one clone with siblings from the same template): real multi-stage NLP rows = disjoint union of the stages' reference rows (each read back through stage.sample) + coupling rows, objective = sum of stage objectives + master terms; template's declared state unchanged",
         bound="lists of length <=3%s" % ("" if tier == "thorough" else " (length 3 restricted)"),
         assumptions=["CasADi Function evaluation and Opti bookkeeping are trusted", "generic-point alphabet", "stage.sample is the labelling of a stage's variables"])
